@@ -712,6 +712,8 @@ func (r *runner) entriesFor(bi *baseInfo, eds []edit, level string) []entry {
 		out = append(out, eText)
 	case level == "pair":
 		out = append(out, eText)
+	case level == "pairnum": // two numeric attributes of one XML/HTML element: the three output paths
+		out = append(out, eText, eMarkdown, eChunks)
 	}
 	if b.kind == "html" {
 		if level == "full" {
